@@ -566,6 +566,20 @@ def g_bigint(ctx, rng, i):
             if l is not None:
                 l.contains(g.Point(p))
                 l.contains(g.Point(2 * q - p))
+    # the same question in 32 and 16 bit integer representation: coordinates whose products leave the range of the representation but
+    # not that of int64 (the contraction must not be carried out in the narrow type)
+    for dt, lo, hi in ((np.int32, 1500, 30000), (np.int16, 40, 180)):
+        c3 = [np.append(rng.integers(lo, hi, size=3) * rng.choice([-1, 1], size=3), 1).astype(dt) for _ in range(3)]
+        if X.rank([X.vec(v) for v in c3]) == 3:
+            _lib(ctx, g.join, *[g.Point(v) for v in c3], what=f"join(3 points, {np.dtype(dt).name})")
+            _lib(ctx, g.meet, *[g.Plane(v) for v in c3], what=f"meet(3 planes, {np.dtype(dt).name})")
+            _lib(ctx, g.join, g.PointCollection(np.stack([c3[0], c3[1]])), g.Point(c3[2]), g.Point(c3[1] + c3[0] * np.array([1, 1, 1, 0], dtype=dt)),
+                 what=f"join(collection, point, point; {np.dtype(dt).name})")
+        hi2 = 40000 if dt is np.int32 else 180
+        c2 = [np.append(rng.integers(hi2 // 2, hi2, size=2) * rng.choice([-1, 1], size=2), 1).astype(dt) for _ in range(2)]
+        if X.rank([X.vec(v) for v in c2]) == 2:
+            _lib(ctx, g.join, g.Point(c2[0]), g.Point(c2[1]), what=f"join(2 points, {np.dtype(dt).name})")
+            _lib(ctx, g.meet, g.Line(c2[0]), g.Line(c2[1]), what=f"meet(2 lines, {np.dtype(dt).name})")
 
 
 GROUPS = [
